@@ -612,3 +612,26 @@ UNITS["MemoryPoolAllocator.AlignBuffer"] = dict(file=AL, anchor=r"static inline 
 UNITS["WriteBuffer.ToString"] = dict(file="include/sonic/writebuffer.h", anchor=r"sonic_force_inline const char\* ToString\(\) const", cname="WriteBuffer_ToString", self="WriteBuffer",
     rules=[("wb-grow", r"stack_\.Grow\(", "Stack_Grow(&self->stack_, "), ("wb-end", r"stack_\.template End<char>\(\)", "Stack_End_char(&self->stack_)"),
            ("wb-begin", r"stack_\.Begin<char>\(\)", "Stack_Begin_char(&self->stack_)")], must_fire=["wb-grow", "wb-end", "wb-begin"])
+
+# ------------------------------------------------------------------ atof_native.h: Eisel-Lemire (C04: structural contract only, rounding undecided)
+UNITS["kPow10M128Tab"] = dict(file=AN, anchor=r"static const uint64_t kPow10M128Tab\[697\]\[2\] = \{", kind="table")
+UNITS["MulU64"] = dict(file=AN, anchor=r"static sonic_force_inline void MulU64\(", callmacro="#define MulU64(x, y, h, l) (MulU64)(x, y, &(h), &(l))")
+UNITS["AtofEiselLemire64"] = dict(file=AN, anchor=r"static sonic_force_inline bool AtofEiselLemire64\(",
+    contract="""__CPROVER_requires(mant != 0 && (sgn == 1 || sgn == -1) && __CPROVER_rw_ok(val, sizeof(double)))
+__CPROVER_assigns(*val)
+/* C04 (structural part only): a successful Eisel-Lemire conversion is a normal, finite double with the sign of the text;
+ * zero, subnormal, infinite and NaN encodings are never produced (those cases must fall back) */
+__CPROVER_ensures(!__CPROVER_return_value || ((*(uint64_t *)val >> 52) & 0x7FF) >= 1)
+__CPROVER_ensures(!__CPROVER_return_value || ((*(uint64_t *)val >> 52) & 0x7FF) <= 0x7FE)
+__CPROVER_ensures(!__CPROVER_return_value || (*(uint64_t *)val >> 63) == (sgn == -1))
+""")
+
+UNITS["ParseFloatingNormalFast"] = dict(file="include/sonic/internal/parse_number_normal_fast.h", anchor=r"inline bool ParseFloatingNormalFast\(", rtype="bool",
+    contract="""__CPROVER_requires(man != 0 && (sgn == 1 || sgn == -1) && __CPROVER_rw_ok(d_raw__r, sizeof(uint64_t)))
+/* the guard at the only call site (parser.h: exp10 > -308 + 1 && exp10 < +308 - 20), asserted there by the parseNumber jobs */
+__CPROVER_requires(exp10 > -308 + 1 && exp10 < 308 - 20)
+__CPROVER_assigns(*d_raw__r)
+/* C04 (structural part only): a successful conversion is a normal, finite double with the sign of the text */
+__CPROVER_ensures(!__CPROVER_return_value || (((*d_raw__r >> 52) & 0x7FF) >= 1 && ((*d_raw__r >> 52) & 0x7FF) <= 0x7FE))
+__CPROVER_ensures(!__CPROVER_return_value || (*d_raw__r >> 63) == (sgn == -1))
+""")
